@@ -179,6 +179,14 @@ impl<'a> G<'a> {
             _ => json!({"rand": id}),
         }
     }
+    /// the padded one-shot to use: PKCS#7 half of the time, otherwise one of the other schemes of block-padding
+    fn pad_how(&mut self) -> &'static str {
+        if self.rng.coin() {
+            "padded"
+        } else {
+            *self.rng.pick(&["padded:iso10126", "padded:ansix923", "padded:iso7816", "padded:zero", "padded:none"])
+        }
+    }
     fn stream_kind(&mut self) -> &'static str {
         let all = ["ctr32be", "ctr32le", "ctr64be", "ctr64le", "ctr128be", "ctr128le", "ofb", "belt"];
         all[self.rng.below(all.len())]
@@ -203,19 +211,35 @@ fn block_kind_dir(g: &mut G) -> (&'static str, &'static str) {
 /// cbc/cfb decryption (direction forced), keystream cores, ciphertext stealing
 fn pick_kind(g: &mut G, kinds: &[String]) -> (String, Option<&'static str>) {
     let r = g.rng.below(10);
-    if r < 3 {
+    if r < 2 {
         let c: Vec<&String> = kinds.iter().filter(|k| *k == "cbc" || *k == "cfb").collect();
         if !c.is_empty() {
             return ((*g.rng.pick(&c)).clone(), Some("dec"));
         }
     }
-    if r < 6 {
+    if r < 4 {
         let c: Vec<&String> = kinds.iter().filter(|k| k.ends_with("core") || CTS_KINDS.contains(&k.as_str())).collect();
         if !c.is_empty() {
             return ((*g.rng.pick(&c)).clone(), None);
         }
     }
+    if r < 8 {
+        // every block-level mode and direction evenly: a parallel body can be added to any of them
+        let c: Vec<&String> = kinds.iter().filter(|k| BLOCK_KINDS.contains(&k.as_str())).collect();
+        if !c.is_empty() {
+            return ((*g.rng.pick(&c)).clone(), None);
+        }
+    }
     (g.rng.pick(kinds).clone(), None)
+}
+
+/// length of the padded message (for NoPadding and an unaligned message, which is refused: the message length)
+fn pad_len(how: &str, n: usize, bs: usize) -> usize {
+    match how {
+        "padded:none" => n,
+        "padded:zero" if n % bs == 0 => n,
+        _ => bs * (n / bs + 1),
+    }
 }
 
 fn core_of(k: &str) -> String {
@@ -340,9 +364,12 @@ fn gen_c01(g: &mut G) {
             g.new_obj("e", f, kind, "enc", 0, json!({"rand":0}), json!({"rand":0}), "inner");
             g.new_obj("d", f, kind, "dec", 0, json!({"rand":0}), json!({"out":"e"}), "inner");
             let (b1, b2) = (g.rng.coin(), g.rng.coin());
-            let room = bs * (n / bs + 1);
-            g.cmds.push(json!({"op":"oneshot","o":"e","how":"padded","n":n,"b2b":b1,"junklen":room + g.rng.below(3)}));
-            g.cmds.push(json!({"op":"oneshot","o":"d","how":"padded","n":room,"b2b":b2,"junklen":room + g.rng.below(3)}));
+            let how = g.pad_how();
+            // (NoPadding: aligned messages most of the time - an unaligned one is refused)
+            let n = if how == "padded:none" && g.rng.chance(3, 4) { n - n % bs } else { n };
+            let room = pad_len(how, n, bs);
+            g.cmds.push(json!({"op":"oneshot","o":"e","how":how,"n":n,"b2b":b1,"junklen":room + g.rng.below(3)}));
+            g.cmds.push(json!({"op":"oneshot","o":"d","how":how,"n":room,"b2b":b2,"junklen":room + g.rng.below(3)}));
         }
     }
 }
@@ -377,6 +404,20 @@ fn gen_conf(g: &mut G, kinds: &[&str]) {
             g.new_obj("a", f, kind, dir, 0, json!({"rand":0}), src0.clone(), "inner");
             let oneshot = (kind == "cfb" || kind == "cfb8") && g.rng.chance(1, 4);
             let n = g.nblocks(w, 9) * if kind == "cfb8" { 2 } else { 1 };
+            if g.rng.chance(1, 7) {
+                // the padded front-ends, every padding scheme: the padded ciphertext and what is left after removing
+                // the padding are judged absolutely (a mode may override these provided methods)
+                let how = g.pad_how();
+                let u = g.unit(f, kind);
+                let m = g.nbytes(u, 2 * w.min(4) + 2);
+                let m = if how == "padded:none" && g.rng.chance(3, 4) { m - m % u } else { m };
+                let room = pad_len(how, m, u);
+                let (b1, b2) = (g.rng.coin(), g.rng.coin());
+                g.new_obj("pe", f, kind, "enc", 0, json!({"rand":0}), src0.clone(), "inner");
+                g.new_obj("pd", f, kind, "dec", 0, json!({"rand":0}), json!({"out":"pe"}), "inner");
+                g.cmds.push(json!({"op":"oneshot","o":"pe","how":how,"n":m,"b2b":b1,"junklen":room + g.rng.below(3)}));
+                g.cmds.push(json!({"op":"oneshot","o":"pd","how":how,"n":room,"b2b":b2,"junklen":room + g.rng.below(3)}));
+            }
             if oneshot {
                 let pre = g.rng.range(0, n.min(3));
                 g.sched_blocks("a", pre, w, None, true);
@@ -883,7 +924,7 @@ fn gen_c12(g: &mut G) {
         how = "async";
     } else if kind == "padded" {
         kind = g.rng.pick(&["cbc", "pcbc", "ige", "cfb", "ofbblk"]).to_string();
-        how = "padded";
+        how = g.pad_how();
     } else if CTS_KINDS.contains(&kind.as_str()) {
         how = "cts";
     }
@@ -897,11 +938,12 @@ fn gen_c12(g: &mut G) {
     if !how.is_empty() {
         let n = match how {
             "cts" => bs + g.nbytes(bs, 2 * w.min(4) + 2),
-            "padded" if dir == "dec" => bs * g.rng.range(1, 4),
+            h if h.starts_with("padded") && dir == "dec" => bs * g.rng.range(1, 4),
+            "padded:none" if g.rng.chance(3, 4) => bs * g.rng.range(0, 4),
             _ => g.nbytes(bs, 4),
         };
-        if how == "padded" {
-            let room = if dir == "enc" { bs * (n / bs + 1) } else { n };
+        if how.starts_with("padded") {
+            let room = if dir == "enc" { pad_len(how, n, bs) } else { n };
             g.cmds.push(json!({"op":"oneshot","o":"p","how":how,"n":n,"b2b":false}));
             g.cmds.push(json!({"op":"oneshot","o":"q","how":how,"n":n,"b2b":true,"junklen":room + g.rng.below(2)}));
         } else {
@@ -1002,7 +1044,8 @@ fn gen_c13(g: &mut G) {
             let n = if g.rng.coin() { g.nbytes(bs, 3) } else { bs * g.rng.range(0, 3) };
             let b2b = g.rng.coin();
             let jl = if g.rng.chance(1, 4) { n.saturating_sub(1) } else { n + g.rng.below(2) };
-            g.cmds.push(json!({"op":"oneshot","o":"a","how":"padded","n":n,"b2b":b2b,"junklen":jl}));
+            let how = g.pad_how();
+            g.cmds.push(json!({"op":"oneshot","o":"a","how":how,"n":n,"b2b":b2b,"junklen":jl}));
         }
         5 => {
             // padded encryption with exactly enough, more than enough, or too little room
@@ -1011,9 +1054,13 @@ fn gen_c13(g: &mut G) {
             let bs = g.bs(f);
             g.new_obj("a", f, kind, "enc", 0, json!({"rand":0}), json!({"rand":0}), "inner");
             let n = g.nbytes(bs, 3);
-            let need = bs * (n / bs + 1);
+            let how = g.pad_how();
+            let n = if how != "padded" && g.rng.coin() { n - n % bs } else { n };
+            let need = pad_len(how, n, bs);
             let jl = (need as i64 + *g.rng.pick(&[0i64, 0, 1, -1, -(bs as i64)])).max(0) as usize;
-            g.cmds.push(json!({"op":"oneshot","o":"a","how":"padded","n":n,"b2b":true,"junklen":jl}));
+            // (in place there is always room; NoPadding refuses an unaligned message in both forms)
+            let b2b = how != "padded:none" || g.rng.coin();
+            g.cmds.push(json!({"op":"oneshot","o":"a","how":how,"n":n,"b2b":b2b,"junklen":jl}));
         }
         6 | 7 => {
             // construction from slices of right and wrong lengths
@@ -1059,7 +1106,8 @@ fn gen_c13(g: &mut G) {
                 if (kind == "cfb" || kind == "cfb8") && g.rng.coin() {
                     g.oneshot("a", "async", 0, b);
                 } else if is_block(&kind) && g.rng.coin() {
-                    g.cmds.push(json!({"op":"oneshot","o":"a","how":"padded","n":0,"b2b":b,"junklen":g.bs(f)}));
+                    let how = g.pad_how();
+                    g.cmds.push(json!({"op":"oneshot","o":"a","how":how,"n":0,"b2b":b,"junklen":g.bs(f)}));
                 }
             } else {
                 g.bytes("a", 0, b && kind != "cfbbuf");
